@@ -325,6 +325,39 @@ Theorem C19_read_partitions_all_topics : forall v6 arg cluster,
 Proof. exact read_partitions_all_topics. Qed.
 Print Assumptions C19_read_partitions_all_topics.
 
+(* ======================= Client.roundTrip: which cluster answers ======================= *)
+
+(* Every Client query goes to the cluster at the effective address: the request's Addr
+   when it has one (whatever the client's), else the client's Addr; with neither, the
+   documented error and no round trip. *)
+Theorem C19_client_addr_exact : forall (A Q R : Type) (transport : A -> Q -> R) req_addr client_addr q,
+  client_round_trip transport req_addr client_addr q =
+  option_map (fun a => transport a q) (effective_addr req_addr client_addr).
+Proof. exact client_round_trip_exact. Qed.
+Print Assumptions C19_client_addr_exact.
+
+Theorem C19_client_addr_request_first : forall (A Q R : Type) (transport : A -> Q -> R) a client_addr q,
+  client_round_trip transport (Some a) client_addr q = Some (transport a q).
+Proof. exact client_round_trip_request_addr. Qed.
+Print Assumptions C19_client_addr_request_first.
+
+Theorem C19_client_addr_none : forall (A Q R : Type) (transport : A -> Q -> R) q,
+  client_round_trip transport None None q = None.
+Proof. exact client_round_trip_no_addr. Qed.
+Print Assumptions C19_client_addr_none.
+
+(* composed with any of the user-level mappings f proved exact above (metadata_map,
+   offsetfetch_map, offsetcommit_map, listoffsets_client ...): what the API reports is f of
+   the answer of the cluster at the effective address — the state of THAT cluster *)
+Theorem C19_client_query_exact : forall (A Q R U : Type) (transport : A -> Q -> R) (f : R -> U) req_addr client_addr q,
+  option_map f (client_round_trip transport req_addr client_addr q) =
+  match effective_addr req_addr client_addr with
+  | Some a => Some (f (transport a q))
+  | None => None
+  end.
+Proof. exact client_query_exact. Qed.
+Print Assumptions C19_client_query_exact.
+
 (* ======================= non-vacuity ======================= *)
 
 Example C19_seek_example :
@@ -365,3 +398,10 @@ Example C19_read_partitions_example :
   read_partitions_call false [] (Some []) cluster = read_partitions_call false [] None cluster /\
   exists p, read_partitions_call false [] (Some []) cluster = PartsOk [p] /\ pt_id p = 0 /\ pt_topic p = [111%N].
 Proof. repeat split. eexists. repeat split. Qed.
+
+(* two clusters (true / false) answering differently: a request addressed to the second
+   one is answered by the second one although the client's default is the first *)
+Example C19_client_addr_example :
+  client_round_trip (fun (a : bool) (q : Z) => if a then q + 1 else q + 1000) (Some false) (Some true) 5 = Some 1005 /\
+  client_round_trip (fun (a : bool) (q : Z) => if a then q + 1 else q + 1000) None (Some true) 5 = Some 6.
+Proof. split; reflexivity. Qed.
